@@ -1745,8 +1745,9 @@ func calleeName(call *ast.CallExpr) string {
 //          statement are BPO go:G (unless a loop around both would let a later iteration's site follow an
 //          earlier iteration's fork of a variable declared outside the loop), sites inside G are after go:G;
 //   end:G / ret:F   closed when the goroutine / the function's own thread ends: all sites of one thread are
-//          BPO of it (same thread) - not for a literal started in a loop when the variable is declared
-//          outside that loop (several instances of the literal share it);
+//          BPO of it (same thread); a literal started in a loop, for a variable declared outside that loop
+//          (several instances of the literal share it), is represented by two instances G#1 and G#2 with
+//          their own go:/end:/wg: channels, so that a row of one instance meets the same row of the other;
 //   wg:W@G closed by W.Done() in G (W a sync.WaitGroup local with W.Add(...) before the go statement):
 //          sites of G before its Done (all of them when it is deferred) are BPO wg:W@G, sites that follow a
 //          top-level W.Wait() in another thread are after wg:W@G.
@@ -1961,8 +1962,6 @@ func (pa *pkgAn) sharedLocalsOf(fd *ast.FuncDecl) {
 					done[g] = map[types.Object]doneInfo{}
 				}
 				done[g][v] = doneInfo{pos: p, deferred: deferred}
-				_, line := pa.rel(p)
-				pa.addCloser(closerRow{Chan: "wg:" + v.Name() + "@" + g.name, Fn: fname, Pos: fmt.Sprintf("%s:%d", file, line)})
 			}
 		}
 	}
@@ -1980,11 +1979,29 @@ func (pa *pkgAn) sharedLocalsOf(fd *ast.FuncDecl) {
 			}
 		}
 	}
+	inLoop := func(g *goLit) bool {
+		for _, l := range loops {
+			if within(g.goPos, l) {
+				return true
+			}
+		}
+		return false
+	}
 	for _, g := range lits {
 		_, line := pa.rel(g.goPos)
-		pa.addCloser(closerRow{Chan: "go:" + g.name, Fn: fname, Pos: fmt.Sprintf("%s:%d", file, line)})
 		_, eline := pa.rel(g.fl.End())
-		pa.addCloser(closerRow{Chan: "end:" + g.name, Fn: fname, Pos: fmt.Sprintf("%s:%d", file, eline)})
+		insts := []string{g.name}
+		if inLoop(g) {
+			insts = append(insts, g.name+"#1", g.name+"#2")
+		}
+		for _, n := range insts {
+			pa.addCloser(closerRow{Chan: "go:" + n, Fn: fname, Pos: fmt.Sprintf("%s:%d", file, line)})
+			pa.addCloser(closerRow{Chan: "end:" + n, Fn: fname, Pos: fmt.Sprintf("%s:%d", file, eline)})
+			for wv, di := range done[g] {
+				_, dline := pa.rel(di.pos)
+				pa.addCloser(closerRow{Chan: "wg:" + wv.Name() + "@" + n, Fn: fname, Pos: fmt.Sprintf("%s:%d", file, dline)})
+			}
+		}
 	}
 	_, rline := pa.rel(fd.End())
 	retName := "ret:" + pa.short + "." + fnName(fd)
@@ -1998,52 +2015,74 @@ func (pa *pkgAn) sharedLocalsOf(fd *ast.FuncDecl) {
 		}
 		return false
 	}
+	// names: a literal of which several instances share v is represented by TWO instances (#1, #2): a row
+	// of one against the same row of the other is then a pair of different threads
+	names := func(g *goLit, v types.Object) []string {
+		if multi(g, v) {
+			return []string{g.name + "#1", g.name + "#2"}
+		}
+		return []string{g.name}
+	}
 	emit := func(v types.Object, loc string, pos token.Pos, kind string) {
 		th := threadOf(pos)
 		_, line := pa.rel(pos)
-		row := siteRow{Loc: loc, Kind: kind, Fn: fname, Pos: fmt.Sprintf("%s:%d", file, line)}
-		// started by: every go statement on the way from the thread that declares v
-		for h := th; h != nil && !within(v.Pos(), h.fl); h = h.parent {
-			row.After = append(row.After, "go:"+h.name)
-		}
-		// same thread
-		if th == nil {
-			row.Before = append(row.Before, beforeTag{Kind: "PO", Chan: retName})
-		} else if !multi(th, v) {
-			row.Before = append(row.Before, beforeTag{Kind: "PO", Chan: "end:" + th.name})
-		}
-		// before the go statements of this thread that come later
-		for _, g := range lits {
-			if g.parent == th && g.goPos > pos && usesVar(g, v) && !loopAround(v, pos, g.goPos) {
-				row.Before = append(row.Before, beforeTag{Kind: "PO", Chan: "go:" + g.name})
-			}
-		}
-		// before this goroutine's Done
+		insts := []string{""}
 		if th != nil {
-			for wv, di := range done[th] {
-				if di.deferred || pos < di.pos {
-					row.Before = append(row.Before, beforeTag{Kind: "PO", Chan: "wg:" + wv.Name() + "@" + th.name})
+			insts = names(th, v)
+		}
+		for _, inst := range insts {
+			row := siteRow{Loc: loc, Kind: kind, Fn: fname, Pos: fmt.Sprintf("%s:%d", file, line)}
+			// started by: every go statement on the way from the thread that declares v
+			for h := th; h != nil && !within(v.Pos(), h.fl); h = h.parent {
+				if h == th {
+					row.After = append(row.After, "go:"+inst)
+				} else {
+					row.After = append(row.After, "go:"+names(h, v)[0])
 				}
 			}
-		}
-		// after a Wait of this thread: every goroutine that calls Done on it has done so
-		for _, wi := range waits[th] {
-			if pos > wi.end {
-				for _, g := range lits {
-					if _, ok := done[g][wi.v]; ok && g != th {
-						row.After = append(row.After, "wg:"+wi.v.Name()+"@"+g.name)
+			// same thread
+			if th == nil {
+				row.Before = append(row.Before, beforeTag{Kind: "PO", Chan: retName})
+			} else {
+				row.Before = append(row.Before, beforeTag{Kind: "PO", Chan: "end:" + inst})
+			}
+			// before the go statements of this thread that come later
+			for _, g := range lits {
+				if g.parent == th && g.goPos > pos && usesVar(g, v) && !loopAround(v, pos, g.goPos) {
+					for _, n := range names(g, v) {
+						row.Before = append(row.Before, beforeTag{Kind: "PO", Chan: "go:" + n})
 					}
 				}
 			}
+			// before this goroutine's Done
+			if th != nil {
+				for wv, di := range done[th] {
+					if di.deferred || pos < di.pos {
+						row.Before = append(row.Before, beforeTag{Kind: "PO", Chan: "wg:" + wv.Name() + "@" + inst})
+					}
+				}
+			}
+			// after a Wait of this thread: every goroutine that calls Done on it has done so
+			for _, wi := range waits[th] {
+				if pos > wi.end {
+					for _, g := range lits {
+						if _, ok := done[g][wi.v]; ok && g != th {
+							for _, n := range names(g, v) {
+								row.After = append(row.After, "wg:"+wi.v.Name()+"@"+n)
+							}
+						}
+					}
+				}
+			}
+			sort.Strings(row.After)
+			sort.Slice(row.Before, func(i, j int) bool { return fmt.Sprint(row.Before[i]) < fmt.Sprint(row.Before[j]) })
+			k := fmt.Sprint(row)
+			if pa.seen[k] {
+				continue
+			}
+			pa.seen[k] = true
+			pa.out.Sites = append(pa.out.Sites, row)
 		}
-		sort.Strings(row.After)
-		sort.Slice(row.Before, func(i, j int) bool { return fmt.Sprint(row.Before[i]) < fmt.Sprint(row.Before[j]) })
-		k := fmt.Sprint(row)
-		if pa.seen[k] {
-			return
-		}
-		pa.seen[k] = true
-		pa.out.Sites = append(pa.out.Sites, row)
 	}
 	var vars []types.Object
 	for v := range captured {
